@@ -290,6 +290,23 @@ class T:
             st.pc = list(prev.pc)
             st.roots = prev.roots
             st.log = prev.log
+            # objects handed over again (self / arguments) are the ones of THAT state (same oid), not the caller's originals
+            from .symexec import find_obj as _find
+
+            def _remap(v):
+                if isinstance(v, SObj):
+                    try:
+                        r = _find(prev, v.oid)
+                    except Exception:
+                        r = None
+                    return r if r is not None else v
+                if isinstance(v, list):
+                    return [_remap(x) for x in v]
+                if isinstance(v, tuple):
+                    return tuple(_remap(x) for x in v)
+                return v
+            self_val = _remap(self_val)
+            args = [_remap(a) for a in args]
         st.frames.append(Frame(fref.module))
         st.roots["inputs"] = {k: d.sym for k, d in self.inputs.items() if not isz(d.sym)}
         st.roots["self"] = self_val
